@@ -47,7 +47,7 @@ FLOORS = {'*': {**{f'{v}:{o}': 30 for v in ('jsonschema', 'pydantic') for o in (
                 'client-sets-excluded': 30, 'client-sets-context': 30, 'style:view': 100, 'style:async': 100, 'passing:named': 300,
                 'passing:positional': 300, 'refusal-data-checked': 300, 'pydantic:live-exception-in-error': 5,
                 'jsonschema:required-or-additional': 50, 'no-arguments-call': 50, 'twin-registration-calls': 100,
-                'pydantic:default-none-on-non-optional': 50}}
+                'pydantic:default-none-on-non-optional': 50, 'jsonschema:declares-draft-04': 50}}
 
 ABSENT = '__absent__'
 
@@ -56,8 +56,12 @@ ABSENT = '__absent__'
 FRAGMENTS = [
     {'type': 'integer'}, {'type': 'string'}, {'type': 'number', 'minimum': 0, 'maximum': 10}, {'enum': [2, 'a', None]},
     {'type': ['integer', 'null']}, {'type': 'array'}, {'type': 'boolean'}, {},
+    # draft-04 only (boolean exclusiveMinimum): used when the schema declares that draft
+    {'type': 'number', 'minimum': 0, 'exclusiveMinimum': True},
 ]
-JS_VALUES = [1, -1, 11, 1.5, 'a', '', None, True, [1], {'k': 1}, 2]
+N_FRAGMENTS_ANY_DRAFT = 8
+JS_VALUES = [1, -1, 11, 1.5, 'a', '', None, True, [1], {'k': 1}, 2, 1.0, 0, 0.5]
+DRAFT = {'declared': None}       # the draft the schema of the current case declares through "$schema" (None: the validator's default)
 
 
 def js_type(v):
@@ -68,7 +72,8 @@ def js_type(v):
     if isinstance(v, int):
         return 'integer'
     if isinstance(v, float):
-        return 'number'
+        # since draft 6 a number with a zero fractional part is an integer; drafts 3 and 4 go by the representation
+        return 'integer' if (v.is_integer() and DRAFT['declared'] not in (3, 4)) else 'number'
     if isinstance(v, str):
         return 'string'
     if isinstance(v, (list, tuple)):
@@ -87,6 +92,8 @@ def frag_ok(frag, v):
             return False
     if isinstance(v, (int, float)) and not isinstance(v, bool):
         if 'minimum' in frag and v < frag['minimum']:
+            return False
+        if frag.get('exclusiveMinimum') is True and v == frag['minimum']:
             return False
         if 'maximum' in frag and v > frag['maximum']:
             return False
@@ -200,7 +207,9 @@ def build(params, with_ctx, skip, style, validator, deco_kwargs, annotate):
     if style == 'view':
         validator.validate(ns['View'].f, **deco_kwargs)
         reg = pjrpc.server.MethodRegistry()
-        reg.view(ns['View'], context='ctx' if with_ctx else None)
+        # the view takes the context through its constructor: the designated name may coincide with a parameter of the
+        # method, which stays an ordinary, validated, client-supplied parameter
+        reg.view(ns['View'], context=(params[0][0] if params else 'ctx') if with_ctx else None)
         disp.add_methods(reg)
     else:
         validator.validate(ns['f'], **deco_kwargs)
@@ -299,9 +308,14 @@ def _safe(runs):
 
 # ---- JSON-schema programs ----------------------------------------------------------------------------
 
-def run_js(ctx, params, frags, required, additional, with_ctx, skip, style):
+def run_js(ctx, params, frags, required, additional, with_ctx, skip, style, draft=None):
     plist = [(n, k, d, None) for n, k, d in params]
+    DRAFT['declared'] = draft
     schema = {'type': 'object', 'properties': {p[0]: FRAGMENTS[f] for p, f in zip(params, frags)}}
+    if draft == 4:
+        # a schema that says which draft it is written in is judged by that draft's rules
+        schema['$schema'] = 'http://json-schema.org/draft-04/schema#'
+        ctx.hit('jsonschema:declares-draft-04')
     if required:
         schema['required'] = required
     if additional is not None:
@@ -543,12 +557,13 @@ def gen(ctx):
     for ps in shp:
         for _ in range(reps):
             k += 1
-            frags = [rng.randrange(len(FRAGMENTS)) for _ in ps]
+            draft = 4 if k % 4 == 0 else None
+            frags = [rng.randrange(len(FRAGMENTS) if draft == 4 else N_FRAGMENTS_ANY_DRAFT) for _ in ps]
             names = [p[0] for p in ps]
             required = [] if k % 3 else [rng.choice(names)]
             additional = [None, False, True][k % 3]
             yield 'js', dict(params=[list(p) for p in ps], frags=frags, required=required, additional=additional,
-                             with_ctx=bool(k % 2), skip=bool((k // 2) % 2), style=('def', 'async', 'view', 'def')[k % 4])
+                             with_ctx=bool(k % 2), skip=bool((k // 2) % 2), style=('def', 'async', 'view', 'def')[(k // 4) % 4], draft=draft)
         for _ in range(reps * 2):
             k += 1
             plist = []
@@ -571,6 +586,10 @@ def gen(ctx):
                 yield 'pd', dict(params=[['a', 'PK', False, a], ['b', 'KO', True, 'str']], with_ctx=True, skip=True, style=style, coerce=coerce)
                 if not a.startswith('Optional'):
                     yield 'pd', dict(params=[['a', 'PK', 'none', a], ['b', 'KO', 'none', a]], with_ctx=False, skip=False, style=style, coerce=coerce)
+    for style in ('def', 'view'):
+        for f in (0, 4, 8):
+            yield 'js', dict(params=[['a', 'PK', False], ['b', 'KO', True]], frags=[f, 0], required=[], additional=None,
+                             with_ctx=False, skip=False, style=style, draft=4)
     # schemas whose object-level constraints are stricter than the signature
     for style in ('def', 'async', 'view'):
         yield 'js', dict(params=[['a', 'PK', True], ['b', 'PK', True]], frags=[0, 1], required=['a'], additional=False,
